@@ -161,7 +161,7 @@ impl<'a> WordInfos<'a> {
 //@end
 //@extract sudachi/src/dic/lexicon/word_infos.rs :: impl<'a> WordInfos<'a> :: fn word_id_to_offset
 //@  rw R13 1 custom
-//@  | &self\.bytes\[(self\.offset \+ \(4 \* word_id as usize\))\.\.\]
+//@  | &self\.bytes\[(self\.offset \+ \(\d+ \* word_id as usize\))\.\.\]
 //@  > slice_from(self.bytes, \1)
 //@  ret r
 //@  spec
